@@ -359,9 +359,17 @@ def path_value(pth, e, al):
 
 
 
-def part_construction(pf):
+def part_construction(pf, prog=None):
     """Where the loader builds a part: (key expression, PartFactory call, iterable the names are drawn from), for the
-    comprehension form `{name: PartFactory(...) for name in it}` and the loop form `for name in it: parts[name] = PartFactory(...)`."""
+    comprehension form `{name: PartFactory(...) for name in it}` and the loop form `for name in it: parts[name] = PartFactory(...)`.
+    With `prog` the function is read in canonical form (a `_load_part(name, type)` helper inlined)."""
+    if prog is not None:
+        import copy as _copy
+
+        from sa.inline import expand as _exp
+
+        pf = _copy.copy(pf)
+        pf.node = _exp(prog, pf, local_only=True)
     for n in ast.walk(pf.node):
         if isinstance(n, ast.DictComp) and isinstance(n.value, ast.Call) and dotted(n.value.func) == "PartFactory":
             return n.key, n.value, n.generators[0].iter
@@ -883,7 +891,7 @@ def run(ctx):
     from sa.guards import aliases, norm
 
     al = aliases(pf.node)
-    pc = part_construction(pf)
+    pc = part_construction(pf, prog)
     if pc is None:
         ctx.error("_PackageLoader._parts", "construction of the parts (PartFactory call keyed by the part name) not recognised")
     else:
